@@ -12,8 +12,8 @@ git -C "$wt" apply "$V/seeded/$seed/patch.diff" || { echo "$seed: patch does not
 mkdir -p "$V/logs/seedmatrix"
 out="$V/logs/seedmatrix/$seed-$tier-$prop.txt"
 t0=$(date +%s)
-( cd "$V" && VERIF_REPO="$wt" VERIF_TAG="seed_${seed}_${tier}_${prop}" ./check "$prop" --tier "$tier" ) > "$out" 2>&1
+( cd "$V" && VERIF_NO_REPLAY=${VERIF_NO_REPLAY:-0} VERIF_REPO="$wt" VERIF_TAG="seed_${seed}_${tier}_${prop}" ./check "$prop" --tier "$tier" ) > "$out" 2>&1
 rc=$?
 t1=$(date +%s)
 git -C /repo worktree remove --force "$wt"
-echo "SEED $seed prop=$prop tier=$tier rc=$rc wall=$((t1-t0))s $(grep -E '^(VIOLATION|INCONCLUSIVE|KNOWN-FINDING)' "$out" | cut -c1-160 | tr '\n' '|')"
+echo "SEED $seed prop=$prop tier=$tier rc=$rc wall=$((t1-t0))s $(grep -E "^(VIOLATION|INCONCLUSIVE|KNOWN-FINDING|ALSO-FAILING)" "$out" | cut -c1-160 | tr '\n' '|')"
